@@ -157,7 +157,8 @@ class _Finder(Host):
         raise InterpRaise('NoSolutionError')
 
 
-def fold_minimize(ck: Checker, R: str):
+def fold_minimize(ck: Checker, R: str, handmade_only=False):
+    """`handmade_only`: the hand-made circuits under one configuration (used by C02 for the writes this module makes to circuit state)."""
     repo = ck.repo
     M = cm.Model(repo, Denotations(repo), real_gates=True)
     it = M.interp
@@ -192,10 +193,14 @@ def fold_minimize(ck: Checker, R: str):
     run = RepoFunc(it, sm, fn)
     buckets = {'validation': [], 'truth table': [], 'complemented output': [], 'interface': [], 'size': [], 'GateHasUsersError': [], 'KeyError': [], 'DeleteBlockError': [], 'other internal error': []}
     n = 0
-    for spec, outs in _family(ck.tier):
+    it.executed = {}
+    fam = _family(ck.tier)
+    if handmade_only:
+        fam = fam[:len(fam) - (14 if ck.tier == 'quick' else 120)]
+    for spec, outs in fam:
         inputs = [l for l, t, _ in spec if t == 'INPUT']
         has_equiv = _equivalent_gates(spec)
-        for mode, basis, cut_size, rev in CONFIGS:
+        for mode, basis, cut_size, rev in (CONFIGS[1:2] if handmade_only else CONFIGS):
                 if True:
                     n += 1
                     _Finder.mode = mode
@@ -264,6 +269,7 @@ def fold_minimize(ck: Checker, R: str):
     for key, pr in buckets.items():
         ck.check(not pr, R, sm, fn, f'minimize_subcircuits folded end to end ({n} runs: model circuits x bases x cut sizes x synthesiser oracles): {texts[key]}', '; '.join(pr[:2]) + (f' (and {len(pr) - 2} more runs)' if len(pr) > 2 else ''),
                  construct=f'minimize_subcircuits over the circuit family: {key}')
+    ck.add_coverage(it)
     ck.notes['minimize_runs'] = n
     ck.assume('minimize_subcircuits is folded over a bounded family of model circuits (<= 3 inputs, <= 6 gates) with an oracle cut family and a synthesiser oracle (exhaustive search over <= 2 gates, or none); the real cut enumerator, the SAT-based synthesiser and the time limit are not exercised')
 
